@@ -4,6 +4,7 @@ __all__ = ['ncf2lateral_boundary']
 
 import numpy as np
 from PseudoNetCDF._getwriter import registerwriter
+from PseudoNetCDF.camxfiles.uamiv.Write import _add_days
 
 _emiss_hdr_fmt = np.dtype(dict(names=['SPAD', 'name', 'note', 'itzon', 'nspec',
                                       'ibdate', 'btime', 'iedate', 'etime',
@@ -88,7 +89,8 @@ def ncf2lateral_boundary(ncffile, outpath):
     time_hdr['btime'] = time
     time_hdr['iedate'] = date
     time_hdr['etime'] = time + 1.
-    time_hdr['iedate'] += (time_hdr['etime'] // 24).astype('i')
+    time_hdr['iedate'] = _add_days(
+        time_hdr['iedate'], (time_hdr['etime'] // 24).astype('i'))
     time_hdr['etime'] -= (time_hdr['etime'] // 24) * 24
     emiss_hdr['ibdate'] = time_hdr['ibdate'][0]
     emiss_hdr['btime'] = time_hdr['btime'][0]
